@@ -2,7 +2,7 @@
 (* Generator configurations of Multi.tla (direction A, C05). *)
 EXTENDS Integers, Sequences, FiniteSets, TLC
 
-CONSTANTS MaxSteps, MaxPerSrc, Cuts, InstSetName, PanicSrcs
+CONSTANTS MaxSteps, MaxPerSrc, Cuts, InstSetName, PanicSrcs, SyncSetName
 
 I(op, g, k) == [op |-> op, g |-> g, k |-> k]
 Two == {I("Merge", "Merge", 2), I("Merge", "MergeWith", 2), I("Merge", "MergeWith1", 2), I("Merge", "MergeAll", 2),
@@ -15,8 +15,11 @@ Two == {I("Merge", "Merge", 2), I("Merge", "MergeWith", 2), I("Merge", "MergeWit
 Three == {I("Merge", "Merge", 3), I("Merge", "MergeWith2", 3), I("CombineLatest", "CombineLatest3", 3), I("Zip", "Zip3", 3), I("Race", "Race", 3)}
 InstSet == CASE InstSetName = "two" -> Two [] InstSetName = "three" -> Three [] OTHER -> Two \cup Three
 
-VARIABLES m, st, phase, closed, unsub, log, h, sent, psrc
-M == INSTANCE Multi WITH Insts <- InstSet
+NoSync == {[s |-> 0, k |-> "C"]}
+SyncSet == IF SyncSetName = "ends" THEN {[s |-> x, k |-> kk] : x \in 1..3, kk \in {"C", "E"}} ELSE NoSync
+
+VARIABLES m, st, phase, closed, unsub, log, h, sent, psrc, sync
+M == INSTANCE Multi WITH Insts <- InstSet, SyncEnds <- SyncSet
 Spec == M!Spec
 Grammar == M!Grammar
 ClosedReleasesAll == M!ClosedReleasesAll
